@@ -117,7 +117,7 @@ def dump_od(od):
         else:
             objs.append([8 if isinstance(o, ODArray) else 9, S(o.name), o.index, sopt(o.storage_location),
                          [dump_var(o.subindices[k]) for k in sorted(o.subindices)],
-                         [[S(n), o.names[n].subindex] for n in sorted(o.names)]])
+                         [[S(n), o.names[n].subindex] for n in sorted(o.names)], len(o), list(o)])
     names = [[S(n), od.names[n].index] for n in sorted(od.names)]
     di = []
     for a in DI_ATTRS:
@@ -142,8 +142,10 @@ def do_lookup(od, key):
             return [[r.index, S(r.name)], od.indices.get(r.index) is r]
         if isinstance(r, ODVariable) and not isinstance(r.parent, ObjectDictionary):
             raise TypeError("member variable is not subscriptable")
-        v = r[key[1]]
-        return [dump_var(v), canon_flag(v)]
+        def g():
+            v = r[key[1]]
+            return [dump_var(v), canon_flag(v)]
+        return [guarded(g), key[1] in r]          # container protocol: `k in container` next to container[k]
     return guarded(f)
 
 
@@ -182,6 +184,8 @@ def lookup_keys(desc):
                 keys += [[o["index"], m["sub"]], [o["name"], m["name"]], [o["index"], m["name"]]]
                 if "." not in o["name"]:          # 'Parent.Child' splits at the first dot: only for dot-free parents
                     keys.append([o["name"] + "." + m["name"]])
+            if o["kind"] == "arr" and ms[-1]["sub"] < 255:
+                keys.append([o["index"], ms[-1]["sub"] + 1])       # an element made from the array template
         elif o["kind"] == "compact":
             keys += [[o["index"], k] for k in range(0, o["n"] + 2)]
             for sb, nm in list((o["names"] or {}).items())[:2]:
@@ -263,6 +267,17 @@ def check_var(where, got, exp, attrs=None, value_too=True):
 def check_dictionary(desc, nid_param, dump, lookups, keys, names_demanded=True, value_too=True):
     """Does the imported dictionary contain exactly what `desc` describes?  Independent of library and model."""
     nid = W.node_id_in_force(desc, nid_param)
+    # container[k] results carry `k in container` as a second component
+    norm = []
+    for key, res in zip(keys, lookups):
+        if len(key) == 2 and not isinstance(res, Err):
+            inner, cin = res
+            if not isinstance(inner, Err) and cin is not True:
+                return ("contains_inconsistent", f"od[{key[0]!r}][{key[1]!r}] resolves, but `{key[1]!r} in od[{key[0]!r}]` is {cin!r}")
+            norm.append(inner)
+        else:
+            norm.append(res)
+    lookups = norm
     objs, names, di, baud, comments, bitrate, node_id = dump
     by_index = {}
     for o in objs:
@@ -283,6 +298,8 @@ def check_dictionary(desc, nid_param, dump, lookups, keys, names_demanded=True, 
         if g[1] != S(o["name"]): return ("name_wrong", f"{where}: name {g[1]!r} != {o['name']!r}")
         if g[3] != sopt(o.get("storage")): return ("storage_wrong", f"{where}: storage location {g[3]!r} != {o.get('storage')!r}")
         members = {m[2]: vd(m) for m in g[4]}
+        if g[6] != len(members) or g[7] != sorted(members):
+            return ("container_protocol", f"{where}: len() = {g[6]}, iteration = {g[7]}, listed members {sorted(members)}")
         if o["kind"] in ("arr", "rec"):
             if set(members) != {m["sub"] for m in o["members"]}:
                 return ("sub_set", f"{where}: sub-indices {sorted(members)} != described {[m['sub'] for m in o['members']]}")
@@ -331,6 +348,8 @@ def check_dictionary(desc, nid_param, dump, lookups, keys, names_demanded=True, 
                 next(x for x in desc["objects"] if isinstance(key[0], str) and key[0].startswith(x["name"] + "."))
             if o["kind"] == "compact" and len(key) == 2 and isinstance(key[1], int):
                 continue                                    # checked above
+            if o["kind"] == "arr" and len(key) == 2 and isinstance(key[1], int) and key[1] not in [m["sub"] for m in o["members"]]:
+                continue                                    # made from the array template: only `in` is demanded
             if isinstance(res, Err):
                 return ("lookup_fails", f"od{key!r} raised {res!r}")
             val, same = res
